@@ -115,6 +115,16 @@ def invoke(fn, names_, args, environment, pos):
     except CklRuntimeError as e:
         e.stacktrace.append(getFuncallString(fn, args_) + " " + str(pos))
         raise
+    except CklSyntaxError as e:
+        raise CklRuntimeError(ValueString("ERROR"), e.msg, pos)
+    except Exception as e:
+        # no host exception leaves a function call: programs only
+        # ever see (and can catch) the language's own runtime error
+        raise CklRuntimeError(
+            ValueString("ERROR"),
+            f"{fn.name} failed: {type(e).__name__}: {e}",
+            pos,
+        )
 
 
 class NodeAnd:
